@@ -4,7 +4,12 @@ package main
 import (
 	"fmt"
 	"os"
+	"path/filepath"
+	"runtime/pprof"
 	"sort"
+	"time"
+
+	"verif/harness/internal/ev"
 )
 
 type entry func(tier string, args []string)
@@ -27,7 +32,37 @@ func main() {
 		tier = os.Args[2]
 		args = os.Args[3:]
 	}
+	if len(os.Args[1]) == 3 && os.Args[1][0] == 'C' {
+		go watchdog(os.Args[1], tier)
+	}
 	f(tier, args)
+}
+
+// watchdog ends a property monitor that does not finish at all (for instance because the code under test, which
+// many monitors run in-process, is deadlocked in a call the monitor has no bound for): the goroutines are dumped for
+// triage and the run ends as inconclusive. The limits are far beyond any normal run (quick 40 min, thorough 6 h;
+// VERIF_WATCHDOG_S overrides).
+func watchdog(id, tier string) {
+	limit := 40 * time.Minute
+	if tier != "quick" {
+		limit = 6 * time.Hour
+	}
+	if v := os.Getenv("VERIF_WATCHDOG_S"); v != "" {
+		var s int
+		if _, err := fmt.Sscan(v, &s); err == nil && s > 0 {
+			limit = time.Duration(s) * time.Second
+		}
+	}
+	time.Sleep(limit)
+	dir := filepath.Join(ev.Root(), ".work", "replay")
+	_ = os.MkdirAll(dir, 0o755)
+	path := filepath.Join(dir, fmt.Sprintf("%s-%s-watchdog-goroutines.txt", id, tier))
+	if f, err := os.Create(path); err == nil {
+		_ = pprof.Lookup("goroutine").WriteTo(f, 2)
+		f.Close()
+	}
+	fmt.Printf("INCONCLUSIVE property=%s the monitor did not finish within %v (goroutines: %s)\n", id, limit, path)
+	os.Exit(3)
 }
 
 func usage() {
